@@ -920,7 +920,25 @@ def forms_avr_large():
     yield it('elpm', w(0x95D8), S + 'ELPM')
 
 
+def forms_melps740_nops():
+    """MELPS 740: the assembler puts a NOP (EA) in front of SEC/CLC/CLD that directly follow an ADC/SBC, and in front of a bit branch
+    (BBS/BBC) that directly follows SEI/CLI - the instruction itself stays what it is"""
+    S = 'melps740/'
+    for mn, op in (('sec', 0x38), ('clc', 0x18), ('cld', 0xd8)):
+        yield it('adc #1\n\t%s' % mn, [0x69, 0x01, 0xea, op], S + 'NOP-before-' + mn.upper())
+        yield it('sbc #1\n\t%s' % mn, [0xe9, 0x01, 0xea, op], S + 'NOP-before-' + mn.upper())
+        yield it('lda #1\n\t%s' % mn, [0xa9, 0x01, op], S + mn.upper())
+    for k, (pre, pop) in enumerate((('sei', 0x78), ('cli', 0x58))):
+        for bit in (0, 3, 7):
+            for j, (mn, base) in enumerate((('bbs', 0x03), ('bbc', 0x13))):
+                at = 0x1000 + 0x100 * k + 0x20 * bit + 0x10 * j
+                # <pre> at `at`, NOP at at+1, the branch at at+2 (two bytes for the accumulator form), target = the line's own label = at+1
+                yield it('org %d\n\t%s\nq%d%d%d:\t%s %d,a,q%d%d%d' % (at, pre, k, bit, j, mn, bit, k, bit, j), [pop, 0xea, base | bit << 5, (at + 1 - (at + 4)) & 0xff], S + 'NOP-before-' + mn.upper(), at=at)
+        yield it('%s\n\tnop\n\tbbs 1,a,*' % pre, [pop, 0xea, 0x23, 0xfe], S + 'BBS')
+
+
 ISAS = {
+    'melps740-nops': dict(cpu='melps740', gen=forms_melps740_nops, slot=8),
     'avr-large': dict(cpu='atmega2560', gen=forms_avr_large, slot=4),
     'avr-reduced-core': dict(cpu='attiny10', gen=forms_avr_reduced, slot=4),
     '6502': dict(cpu='6502', gen=forms_6502, slot=8),
